@@ -3719,7 +3719,7 @@ where
                         ISRC::String(_) => return Err(CuesheetError::MultipleISRC),
                     }
                 }
-                ("FLAGS", "PRE") => {
+                ("FLAGS", flags) if flags.split(' ').any(|flag| flag == "PRE") => {
                     let wip_track = wip_track.as_mut().ok_or(CuesheetError::PrematureFlags)?;
 
                     if !wip_track.index_points.is_empty() {
